@@ -60,8 +60,9 @@ func c10WrapKind(t tabular.Table, k string) tabular.Table {
 type C10Variant struct {
 	Path       string   `json:"path"`
 	Nest       []string `json:"nest,omitempty"`
-	BuildFirst bool     `json:"build_first"` // build through the created object before nesting (else through the outermost wrapper)
-	Entry      int      `json:"entry"`       // 0 Wrap.Render 1 pkg Render 2 Wrap.RenderTo 3 auto.Render 4 pkg RenderTo 5 auto.RenderTo
+	BuildFirst bool     `json:"build_first"`   // build through the created object before nesting (else through the outermost wrapper)
+	Entry      int      `json:"entry"`         // 0 Wrap.Render 1 pkg Render 2 Wrap.RenderTo 3 auto.Render 4 pkg RenderTo 5 auto.RenderTo
+	Pre        []string `json:"pre,omitempty"` // formats rendered (and discarded) from the same object before the target
 }
 
 type C10Spec struct {
@@ -105,6 +106,22 @@ func c10Render(sp C10Spec, v C10Variant) Outcome {
 		}
 		if !v.BuildFirst {
 			sp.Table.Build(obj)
+		}
+		for _, k := range v.Pre {
+			pre := k
+			capture(func() (string, error) {
+				switch pre {
+				case "csv":
+					return csv.Render(obj)
+				case "html":
+					return html.Wrap(obj).Render()
+				case "json":
+					return tjson.Render(obj)
+				case "markdown":
+					return markdown.Render(obj)
+				}
+				return texttable.Render(obj)
+			})
 		}
 		toBuf := func(f func(w *bytes.Buffer) error) (string, error) {
 			b := &bytes.Buffer{}
@@ -208,6 +225,14 @@ func c10Variants(r *RNG, tier string) []C10Variant {
 			vs = append(vs, C10Variant{Path: p, Nest: []string{"markdown", "json"}, BuildFirst: false, Entry: e})
 		}
 	}
+	// other formats rendered from the very same object first
+	for i, p := range c10Paths {
+		for j, k := range c10Kinds {
+			vs = append(vs, C10Variant{Path: p, BuildFirst: true, Entry: (i + j) % 6, Pre: []string{k}})
+		}
+		vs = append(vs, C10Variant{Path: p, Nest: []string{c10Kinds[i%5]}, BuildFirst: i%2 == 0, Entry: i % 6, Pre: []string{"text", "markdown", "text"}})
+		vs = append(vs, C10Variant{Path: p, BuildFirst: true, Entry: (i + 3) % 6, Pre: []string{"markdown", "text", "csv"}})
+	}
 	// depth 2 and 3 nestings
 	deep := 12
 	if tier == "thorough" {
@@ -244,7 +269,7 @@ func init() {
 		CaseFn:   "C10_case",
 		ModelFn:  "C10_model",
 		Rule: "for each table (fixed shapes + random) and each target format (csv, html, json, markdown, text default decoration, text ascii-simple) the same TableSpec is built and rendered along many paths: " +
-			"14 creation paths (tabular.New, the five sub-package New, auto.New of 8 style strings) x nestings of further wrappers (depth 0 and 1 exhaustively over the 5 kinds, deeper ones sampled) x building before or after nesting x 6 entry points " +
+			"14 creation paths (tabular.New, the five sub-package New, auto.New of 8 style strings) x nestings of further wrappers (depth 0 and 1 exhaustively over the 5 kinds, deeper ones sampled) x building before or after nesting x other formats rendered from the same object first (each single format on every path, two mixed sequences) x 6 entry points " +
 			"(Wrap(t).Render, package Render, Wrap(t).RenderTo into a buffer, auto.Render, package RenderTo, auto.RenderTo; style strings in several spellings); the first variant is the reference (core table, the format's own Wrap(t).Render()); " +
 			"a case is one (table, format) with all its variants; non-trivial when the reference render succeeds with non-empty output; distinct = distinct (format, reference output)",
 		Exhaustive: "creation paths x nesting depth <= 1 for every (table, format)",
@@ -360,6 +385,11 @@ func init() {
 				for i := range v.Nest {
 					v2 := v
 					v2.Nest = append(append([]string{}, v.Nest[:i]...), v.Nest[i+1:]...)
+					out = append(out, mustJSON(C10Spec{Table: sp.Table, Fmt: sp.Fmt, Decor: sp.Decor, Variants: []C10Variant{sp.Variants[0], v2}}))
+				}
+				for i := range v.Pre {
+					v2 := v
+					v2.Pre = append(append([]string{}, v.Pre[:i]...), v.Pre[i+1:]...)
 					out = append(out, mustJSON(C10Spec{Table: sp.Table, Fmt: sp.Fmt, Decor: sp.Decor, Variants: []C10Variant{sp.Variants[0], v2}}))
 				}
 			}
